@@ -89,6 +89,8 @@ struct Obs {
 	rt: bool,
 	consumed: usize,
 	over: bool,
+	/// encode(decoded) == the input bytes
+	canon: bool,
 }
 
 enum Expect {
@@ -323,6 +325,17 @@ struct Def<T> {
 	set_excess: Option<fn(&mut T, Vec<u8>)>,
 	/// (name, offset in the fixed part, out-of-range byte)
 	extra: &'static [(&'static str, usize, u8)],
+	/// manipulations of inner declared lengths, built from the value
+	inner: Option<fn(&T, &mut Gen) -> Vec<InnerCase>>,
+}
+
+/// One manipulation of an inner declared length: `class` is the InnerClass of spec/Wire.tla that
+/// the element boundaries of the builder's own value imply; `base` is the unmanipulated encoding.
+struct InnerCase {
+	name: String,
+	class: &'static str,
+	bytes: Vec<u8>,
+	base: Vec<u8>,
 }
 
 trait Kind {
@@ -344,6 +357,7 @@ trait Inst {
 	fn enc_excess(&self, mask: u32, excess: &[u8]) -> Vec<u8>;
 	fn observe(&self, bytes: &[u8], expect: &Expect) -> Obs;
 	fn observe_wire(&self, bytes: &[u8], expect: &Expect) -> Obs;
+	fn inner_cases(&self, g: &mut Gen) -> Vec<InnerCase>;
 }
 
 struct InstT<T: 'static> {
@@ -354,22 +368,23 @@ struct InstT<T: 'static> {
 fn observe_t<T: Writeable + LengthReadable + PartialEq + Debug>(bytes: &[u8], expect: Option<&T>) -> Obs {
 	let (d, consumed, over) = decode::<T>(bytes);
 	match d {
-		Dec::Panic(m) => Obs { class: "panic", err: m, eq: false, rt: false, consumed, over },
-		Dec::Err(e) => Obs { class: "reject", err: e, eq: false, rt: false, consumed, over },
+		Dec::Panic(m) => Obs { class: "panic", err: m, eq: false, rt: false, consumed, over, canon: false },
+		Dec::Err(e) => Obs { class: "reject", err: e, eq: false, rt: false, consumed, over, canon: false },
 		Dec::Ok(v) => {
 			let eq = expect.map(|e| *e == v).unwrap_or(false);
 			// decode(encode(decode(b))) == decode(b)
 			let r = catch_unwind(AssertUnwindSafe(|| {
 				let e2 = v.encode();
+				let canon = e2[..] == bytes[..];
 				let (d2, _, over2) = decode::<T>(&e2);
 				match d2 {
-					Dec::Ok(v2) => (v2 == v, String::new(), over2),
-					Dec::Err(e) => (false, format!("re-decode: {}", e), over2),
-					Dec::Panic(m) => (false, format!("re-decode panic: {}", m), over2),
+					Dec::Ok(v2) => (v2 == v, String::new(), over2, canon),
+					Dec::Err(e) => (false, format!("re-decode: {}", e), over2, canon),
+					Dec::Panic(m) => (false, format!("re-decode panic: {}", m), over2, canon),
 				}
 			}));
 			match r {
-				Ok((rt, err, over2)) => Obs { class: "accept", err, eq, rt, consumed, over: over || over2 },
+				Ok((rt, err, over2, canon)) => Obs { class: "accept", err, eq, rt, consumed, over: over || over2, canon },
 				Err(_) => Obs {
 					class: "panic",
 					err: format!("encode panic: {}", LAST_PANIC.with(|p| p.borrow().clone())),
@@ -377,6 +392,7 @@ fn observe_t<T: Writeable + LengthReadable + PartialEq + Debug>(bytes: &[u8], ex
 					rt: false,
 					consumed,
 					over,
+					canon: false,
 				},
 			}
 		},
@@ -422,6 +438,12 @@ impl<T: Writeable + LengthReadable + PartialEq + Debug + Clone + Type + 'static>
 		let e = self.expected(expect);
 		observe_t::<T>(bytes, e.as_ref())
 	}
+	fn inner_cases(&self, g: &mut Gen) -> Vec<InnerCase> {
+		match self.def.inner {
+			Some(f) => f(&self.full, g),
+			None => vec![],
+		}
+	}
 	/// `bytes` is the payload; the 2-byte type of this kind is prepended and the whole is given to
 	/// wire::read.  eq: dispatched to this kind and the re-encoding decodes to the expected value;
 	/// rt: the re-encoding decodes (with this kind's codec) to what the payload decodes to.
@@ -437,11 +459,12 @@ impl<T: Writeable + LengthReadable + PartialEq + Debug + Clone + Type + 'static>
 				rt: false,
 				consumed: 0,
 				over: false,
+				canon: false,
 			},
-			Ok(Err((e, _))) => Obs { class: "reject", err: format!("{:?}", e), eq: false, rt: false, consumed: 0, over: false },
+			Ok(Err((e, _))) => Obs { class: "reject", err: format!("{:?}", e), eq: false, rt: false, consumed: 0, over: false, canon: false },
 			Ok(Ok((tid, dbg, reenc))) => {
 				if dbg.starts_with("Unknown(") {
-					return Obs { class: "unknown", err: dbg, eq: false, rt: false, consumed: 0, over: false };
+					return Obs { class: "unknown", err: dbg, eq: false, rt: false, consumed: 0, over: false, canon: false };
 				}
 				let e = self.expected(expect);
 				let (d_re, _, o1) = decode::<T>(&reenc[2..]);
@@ -452,7 +475,7 @@ impl<T: Writeable + LengthReadable + PartialEq + Debug + Clone + Type + 'static>
 					},
 					_ => (false, false),
 				};
-				Obs { class: "accept", err: String::new(), eq, rt, consumed: 0, over: o1 || o2 }
+				Obs { class: "accept", err: String::new(), eq, rt, consumed: 0, over: o1 || o2, canon: false }
 			},
 		}
 	}
@@ -502,6 +525,150 @@ fn kind<T: Writeable + LengthReadable + PartialEq + Debug + Clone + Type + 'stat
 fn from_bytes<T: LengthReadable>(b: &[u8]) -> Result<T, String> {
 	let mut s = b;
 	T::read_from_fixed_length_buffer(&mut s).map_err(|e| format!("hand-made valid bytes rejected: {:?}", e))
+}
+
+
+// ------------------------------------------------------------------------------------------
+// inner declared lengths
+
+fn get_u16(b: &[u8], off: usize) -> u16 {
+	u16::from_be_bytes([b[off], b[off + 1]])
+}
+fn with_u16(b: &[u8], off: usize, v: i64) -> Option<Vec<u8>> {
+	if v < 0 || v > 0xffff || off + 2 > b.len() {
+		return None;
+	}
+	let mut o = b.to_vec();
+	o[off..off + 2].copy_from_slice(&(v as u16).to_be_bytes());
+	Some(o)
+}
+fn ic(name: String, class: &'static str, base: &[u8], bytes: Option<Vec<u8>>, out: &mut Vec<InnerCase>) {
+	if let Some(bytes) = bytes {
+		if bytes[..] != base[..] {
+			out.push(InnerCase { name, class, bytes, base: base.to_vec() });
+		}
+	}
+}
+/// A u16-prefixed opaque region (data / padding / script) that is the last thing in the message:
+/// declared longer => it extends beyond the message (overrun); declared shorter => bytes shift.
+fn opaque_last(what: &str, base: &[u8], off: usize, out: &mut Vec<InnerCase>) {
+	let l = get_u16(base, off) as i64;
+	for d in [1i64, 2, 300] {
+		ic(format!("{} len+{}", what, d), "overrun", base, with_u16(base, off, l + d), out);
+	}
+	for d in [1i64, 2] {
+		ic(format!("{} len-{}", what, d), "short_opaque", base, with_u16(base, off, l - d), out);
+	}
+}
+/// A region that must be filled exactly by one self-delimiting element (prevtx, a witness).
+fn strict_region(what: &str, base: &[u8], off: usize, out: &mut Vec<InnerCase>) {
+	let l = get_u16(base, off) as i64;
+	for d in [-1i64, 1, -2, 2, -(l / 2).max(1), 7] {
+		if l + d > 0 {
+			ic(format!("{} len{:+}", what, d), "mismatch", base, with_u16(base, off, l + d), out);
+		}
+	}
+}
+/// encoded_short_ids: 1 encoding byte + 8 bytes per id, the last thing in the message
+fn scid_region(base: &[u8], off: usize, out: &mut Vec<InnerCase>) {
+	let l = get_u16(base, off) as i64;
+	for d in [-1i64, 1, -3, 4, -7, 7] {
+		ic(format!("encoded_short_ids len{:+}", d), "mismatch", base, with_u16(base, off, l + d), out);
+	}
+	for d in [8i64, 16, 800] {
+		ic(format!("encoded_short_ids len+{}", d), "overrun", base, with_u16(base, off, l + d), out);
+	}
+	if l >= 9 {
+		ic("encoded_short_ids len-8".into(), "short_opaque", base, with_u16(base, off, l - 8), out);
+	}
+}
+
+fn addr_wire_len(a: &SocketAddress) -> usize {
+	a.encode().len() // 1 descriptor byte + body
+}
+
+/// node_announcement `addrlen` against the addresses it contains: each of the five address types
+/// alone and after another address.
+fn node_announcement_inner(v: &NodeAnnouncement, g: &mut Gen) -> Vec<InnerCase> {
+	let mut out = Vec::new();
+	let off = 64 + 2 + v.contents.features.le_flags().len() + 4 + 33 + 3 + 32;
+	for ty in 0..5 {
+		for after in [false, true] {
+			let mut val = v.clone();
+			let mut addrs = Vec::new();
+			if after {
+				addrs.push(g.addr(g.rng.gen_range(0..5), 1));
+			}
+			let last = g.addr(ty, if g.rng.gen_bool(0.5) { 1 } else { 2 });
+			addrs.push(last.clone());
+			val.contents.addresses = addrs;
+			val.contents.excess_address_data = vec![];
+			let alen = addr_wire_len(&last) as i64; // incl. descriptor byte
+			let tag = format!("{}{}", ["ipv4", "ipv6", "onionv2", "onionv3", "hostname"][ty], if after { " after another" } else { " alone" });
+
+			// (1) addrlen shortened: the last address starts inside the region and ends beyond it
+			val.contents.excess_data = { let n = g.rng.gen_range(0..12); g.bytes(n) };
+			let base = val.encode();
+			let l = get_u16(&base, off) as i64;
+			for d in [1i64, 2, alen / 2, alen - 1] {
+				if d >= 1 && d < alen {
+					ic(format!("addrlen-{} ({})", d, tag), "overrun", &base, with_u16(&base, off, l - d), &mut out);
+				}
+			}
+			// (2) addrlen ends exactly before the last address: its bytes are excess data (canonical)
+			ic(format!("addrlen-{} = boundary ({})", alen, tag), "boundary", &base, with_u16(&base, off, l - alen), &mut out);
+
+			// (3) addrlen lengthened over data that starts with an address type this version does not
+			// know: retained verbatim as excess address data (canonical)
+			let k = g.rng.gen_range(1..16usize);
+			let mut x = vec![if g.rng.gen_bool(0.3) { 0u8 } else { g.rng.gen_range(6..=255) }];
+			x.extend_from_slice(&g.bytes(k + g.rng.gen_range(0..5)));
+			val.contents.excess_data = x;
+			let base = val.encode();
+			for d in [1i64, 2, k as i64, k as i64 + 1] {
+				ic(format!("addrlen+{} over unknown descriptor ({})", d, tag), "retained", &base, with_u16(&base, off, l + d), &mut out);
+			}
+			// ... and beyond the end of the message
+			ic(format!("addrlen+{} beyond the message ({})", k + 40, tag), "overrun", &base, with_u16(&base, off, l + k as i64 + 40), &mut out);
+
+			// (4) addrlen lengthened over part of a further (known-type) address
+			let next = g.addr(g.rng.gen_range(0..5), 1);
+			let nlen = addr_wire_len(&next) as i64;
+			let mut x = next.encode();
+			x.extend_from_slice(&g.bytes(g.rng.gen_range(0..6)));
+			val.contents.excess_data = x;
+			let base = val.encode();
+			for d in [1i64, 2, nlen - 1] {
+				if d >= 1 && d < nlen {
+					ic(format!("addrlen+{} covers part of a following address ({})", d, tag), "overrun", &base, with_u16(&base, off, l + d), &mut out);
+				}
+			}
+			// the whole following address: canonical (it simply is an address)
+			ic(format!("addrlen+{} covers a following address ({})", nlen, tag), "boundary", &base, with_u16(&base, off, l + nlen), &mut out);
+		}
+	}
+	// (5) a hostname whose own length byte is one too large: the address overruns addrlen by one
+	for after in [false, true] {
+		let mut val = v.clone();
+		let mut addrs = Vec::new();
+		if after {
+			addrs.push(g.addr(g.rng.gen_range(0..4), 1));
+		}
+		let n = g.rng.gen_range(1..40);
+		addrs.push(SocketAddress::Hostname { hostname: g.hostname(n), port: 0x6162 });
+		val.contents.addresses = addrs;
+		val.contents.excess_address_data = vec![];
+		val.contents.excess_data = g.bytes(6);
+		let base = val.encode();
+		let l = get_u16(&base, off) as usize;
+		let hpos = off + 2 + l - (1 + n + 2); // the hostname's length byte
+		if base[hpos] as usize == n {
+			let mut b = base.clone();
+			b[hpos] += 1;
+			ic(format!("hostname len+1 inside addrlen ({})", if after { "after another" } else { "alone" }), "overrun", &base, Some(b), &mut out);
+		}
+	}
+	out
 }
 
 // ------------------------------------------------------------------------------------------
@@ -571,37 +738,37 @@ fn all_kinds() -> Vec<Box<dyn Kind>> {
 			})
 		},
 		clear: |v, i| match i { 0 => v.networks = None, _ => v.remote_network_address = None },
-		set_excess: None, extra: &[],
+		set_excess: None, extra: &[], inner: Some(|v, _| { let mut o = vec![]; let mut w = v.clone(); w.networks = None; w.remote_network_address = None; let b = w.encode(); let off = 2 + get_u16(&b, 0) as usize; opaque_last("features len", &b, off, &mut o); o }),
 	}));
 	k.push(kind(Def::<ErrorMessage> {
 		name: "ErrorMessage", tlv: false, wire: true, bad: B0,
 		build: |g, var| Ok(ErrorMessage { channel_id: g.cid(), data: g.string(var) }),
-		clear: |_, _| {}, set_excess: None, extra: &[("invalid_utf8", 34, 0xff)],
+		clear: |_, _| {}, set_excess: None, extra: &[("invalid_utf8", 34, 0xff)], inner: Some(|v, _| { let mut o = vec![]; let b = v.encode(); opaque_last("data", &b, 32, &mut o); o }),
 	}));
 	k.push(kind(Def::<WarningMessage> {
 		name: "WarningMessage", tlv: false, wire: true, bad: B0,
 		build: |g, var| Ok(WarningMessage { channel_id: g.cid(), data: g.string(var) }),
-		clear: |_, _| {}, set_excess: None, extra: &[("invalid_utf8", 34, 0xff)],
+		clear: |_, _| {}, set_excess: None, extra: &[("invalid_utf8", 34, 0xff)], inner: Some(|v, _| { let mut o = vec![]; let b = v.encode(); opaque_last("data", &b, 32, &mut o); o }),
 	}));
 	k.push(kind(Def::<Ping> {
 		name: "Ping", tlv: false, wire: true, bad: B0,
 		build: |g, var| Ok(Ping { ponglen: g.rng.gen(), byteslen: g.vlen(var, 64, 252, 65000) as u16 }),
-		clear: |_, _| {}, set_excess: None, extra: &[],
+		clear: |_, _| {}, set_excess: None, extra: &[], inner: Some(|v, _| { let mut o = vec![]; let b = v.encode(); opaque_last("byteslen", &b, 2, &mut o); o }),
 	}));
 	k.push(kind(Def::<Pong> {
 		name: "Pong", tlv: false, wire: true, bad: B0,
 		build: |g, var| Ok(Pong { byteslen: g.vlen(var, 64, 252, 65000) as u16 }),
-		clear: |_, _| {}, set_excess: None, extra: &[],
+		clear: |_, _| {}, set_excess: None, extra: &[], inner: Some(|v, _| { let mut o = vec![]; let b = v.encode(); opaque_last("byteslen", &b, 0, &mut o); o }),
 	}));
 	k.push(kind(Def::<PeerStorage> {
 		name: "PeerStorage", tlv: true, wire: true, bad: B0,
 		build: |g, var| Ok(PeerStorage { data: g.vbytes(var, 64, 252, 65000) }),
-		clear: |_, _| {}, set_excess: None, extra: &[],
+		clear: |_, _| {}, set_excess: None, extra: &[], inner: Some(|v, _| { let mut o = vec![]; let b = v.encode(); opaque_last("data", &b, 0, &mut o); o }),
 	}));
 	k.push(kind(Def::<PeerStorageRetrieval> {
 		name: "PeerStorageRetrieval", tlv: true, wire: true, bad: B0,
 		build: |g, var| Ok(PeerStorageRetrieval { data: g.vbytes(var, 64, 252, 65000) }),
-		clear: |_, _| {}, set_excess: None, extra: &[],
+		clear: |_, _| {}, set_excess: None, extra: &[], inner: Some(|v, _| { let mut o = vec![]; let b = v.encode(); opaque_last("data", &b, 0, &mut o); o }),
 	}));
 	k.push(kind(Def::<OpenChannel> {
 		name: "OpenChannel", tlv: true, wire: true, bad: &[BadRule::None, BadRule::None],
@@ -609,7 +776,7 @@ fn all_kinds() -> Vec<Box<dyn Kind>> {
 			common_fields: common_open(g, var), push_msat: g.rng.gen(), channel_reserve_satoshis: g.rng.gen(),
 		}),
 		clear: |v, i| match i { 0 => v.common_fields.shutdown_scriptpubkey = None, _ => v.common_fields.channel_type = None },
-		set_excess: None, extra: &[],
+		set_excess: None, extra: &[], inner: None,
 	}));
 	k.push(kind(Def::<OpenChannelV2> {
 		name: "OpenChannelV2", tlv: true, wire: true, bad: &[BadRule::None, BadRule::None, Len, Len],
@@ -627,13 +794,13 @@ fn all_kinds() -> Vec<Box<dyn Kind>> {
 			2 => v.require_confirmed_inputs = None,
 			_ => v.disable_channel_reserve = None,
 		},
-		set_excess: None, extra: &[],
+		set_excess: None, extra: &[], inner: None,
 	}));
 	k.push(kind(Def::<AcceptChannel> {
 		name: "AcceptChannel", tlv: true, wire: true, bad: &[BadRule::None, BadRule::None],
 		build: |g, var| Ok(AcceptChannel { common_fields: common_accept(g, var), channel_reserve_satoshis: g.rng.gen() }),
 		clear: |v, i| match i { 0 => v.common_fields.shutdown_scriptpubkey = None, _ => v.common_fields.channel_type = None },
-		set_excess: None, extra: &[],
+		set_excess: None, extra: &[], inner: None,
 	}));
 	k.push(kind(Def::<AcceptChannelV2> {
 		name: "AcceptChannelV2", tlv: true, wire: true, bad: &[BadRule::None, BadRule::None, Len, Len],
@@ -650,31 +817,31 @@ fn all_kinds() -> Vec<Box<dyn Kind>> {
 			2 => v.require_confirmed_inputs = None,
 			_ => v.disable_channel_reserve = None,
 		},
-		set_excess: None, extra: &[],
+		set_excess: None, extra: &[], inner: None,
 	}));
 	k.push(kind(Def::<FundingCreated> {
 		name: "FundingCreated", tlv: true, wire: true, bad: B0,
 		build: |g, _| Ok(FundingCreated {
 			temporary_channel_id: g.cid(), funding_txid: g.txid(), funding_output_index: g.rng.gen(), signature: g.sig(),
 		}),
-		clear: |_, _| {}, set_excess: None, extra: &[],
+		clear: |_, _| {}, set_excess: None, extra: &[], inner: None,
 	}));
 	k.push(kind(Def::<FundingSigned> {
 		name: "FundingSigned", tlv: true, wire: true, bad: B0,
 		build: |g, _| Ok(FundingSigned { channel_id: g.cid(), signature: g.sig() }),
-		clear: |_, _| {}, set_excess: None, extra: &[],
+		clear: |_, _| {}, set_excess: None, extra: &[], inner: None,
 	}));
 	k.push(kind(Def::<ChannelReady> {
 		name: "ChannelReady", tlv: true, wire: true, bad: &[Len],
 		build: |g, _| Ok(ChannelReady {
 			channel_id: g.cid(), next_per_commitment_point: g.pk(), short_channel_id_alias: Some(g.rng.gen()),
 		}),
-		clear: |v, _| v.short_channel_id_alias = None, set_excess: None, extra: &[],
+		clear: |v, _| v.short_channel_id_alias = None, set_excess: None, extra: &[], inner: None,
 	}));
 	k.push(kind(Def::<Stfu> {
 		name: "Stfu", tlv: true, wire: true, bad: B0,
 		build: |g, _| Ok(Stfu { channel_id: g.cid(), initiator: g.rng.gen() }),
-		clear: |_, _| {}, set_excess: None, extra: &[("bool_2", 32, 2)],
+		clear: |_, _| {}, set_excess: None, extra: &[("bool_2", 32, 2)], inner: None,
 	}));
 	k.push(kind(Def::<SpliceInit> {
 		name: "SpliceInit", tlv: true, wire: true, bad: &[Len],
@@ -682,7 +849,7 @@ fn all_kinds() -> Vec<Box<dyn Kind>> {
 			channel_id: g.cid(), funding_contribution_satoshis: g.rng.gen(), funding_feerate_per_kw: g.rng.gen(),
 			locktime: g.rng.gen(), funding_pubkey: g.pk(), require_confirmed_inputs: Some(()),
 		}),
-		clear: |v, _| v.require_confirmed_inputs = None, set_excess: None, extra: &[],
+		clear: |v, _| v.require_confirmed_inputs = None, set_excess: None, extra: &[], inner: None,
 	}));
 	k.push(kind(Def::<SpliceAck> {
 		name: "SpliceAck", tlv: true, wire: true, bad: &[Len],
@@ -690,12 +857,12 @@ fn all_kinds() -> Vec<Box<dyn Kind>> {
 			channel_id: g.cid(), funding_contribution_satoshis: g.rng.gen(), funding_pubkey: g.pk(),
 			require_confirmed_inputs: Some(()),
 		}),
-		clear: |v, _| v.require_confirmed_inputs = None, set_excess: None, extra: &[],
+		clear: |v, _| v.require_confirmed_inputs = None, set_excess: None, extra: &[], inner: None,
 	}));
 	k.push(kind(Def::<SpliceLocked> {
 		name: "SpliceLocked", tlv: true, wire: true, bad: B0,
 		build: |g, _| Ok(SpliceLocked { channel_id: g.cid(), splice_txid: g.txid() }),
-		clear: |_, _| {}, set_excess: None, extra: &[],
+		clear: |_, _| {}, set_excess: None, extra: &[], inner: None,
 	}));
 	k.push(kind(Def::<TxAddInput> {
 		name: "TxAddInput", tlv: true, wire: true, bad: &[Len],
@@ -704,27 +871,27 @@ fn all_kinds() -> Vec<Box<dyn Kind>> {
 			prevtx: if var == 0 { None } else { Some(g.tx(var)) },
 			prevtx_out: g.rng.gen(), sequence: g.rng.gen(), shared_input_txid: Some(g.txid()),
 		}),
-		clear: |v, _| v.shared_input_txid = None, set_excess: None, extra: &[],
+		clear: |v, _| v.shared_input_txid = None, set_excess: None, extra: &[], inner: Some(|v, _| { let mut o = vec![]; if v.prevtx.is_some() { let b = v.encode(); strict_region("prevtx_len", &b, 40, &mut o); } o }),
 	}));
 	k.push(kind(Def::<TxAddOutput> {
 		name: "TxAddOutput", tlv: true, wire: true, bad: B0,
 		build: |g, var| Ok(TxAddOutput { channel_id: g.cid(), serial_id: g.rng.gen(), sats: g.rng.gen(), script: g.script(var) }),
-		clear: |_, _| {}, set_excess: None, extra: &[],
+		clear: |_, _| {}, set_excess: None, extra: &[], inner: Some(|v, _| { let mut o = vec![]; let b = v.encode(); opaque_last("script len", &b, 48, &mut o); o }),
 	}));
 	k.push(kind(Def::<TxRemoveInput> {
 		name: "TxRemoveInput", tlv: true, wire: true, bad: B0,
 		build: |g, _| Ok(TxRemoveInput { channel_id: g.cid(), serial_id: g.rng.gen() }),
-		clear: |_, _| {}, set_excess: None, extra: &[],
+		clear: |_, _| {}, set_excess: None, extra: &[], inner: None,
 	}));
 	k.push(kind(Def::<TxRemoveOutput> {
 		name: "TxRemoveOutput", tlv: true, wire: true, bad: B0,
 		build: |g, _| Ok(TxRemoveOutput { channel_id: g.cid(), serial_id: g.rng.gen() }),
-		clear: |_, _| {}, set_excess: None, extra: &[],
+		clear: |_, _| {}, set_excess: None, extra: &[], inner: None,
 	}));
 	k.push(kind(Def::<TxComplete> {
 		name: "TxComplete", tlv: true, wire: true, bad: B0,
 		build: |g, _| Ok(TxComplete { channel_id: g.cid() }),
-		clear: |_, _| {}, set_excess: None, extra: &[],
+		clear: |_, _| {}, set_excess: None, extra: &[], inner: None,
 	}));
 	k.push(kind(Def::<TxSignatures> {
 		name: "TxSignatures", tlv: true, wire: true, bad: &[Sig],
@@ -739,7 +906,16 @@ fn all_kinds() -> Vec<Box<dyn Kind>> {
 				.collect();
 			Ok(TxSignatures { channel_id: g.cid(), tx_hash: g.txid(), witnesses, shared_input_signature: Some(g.sig()) })
 		},
-		clear: |v, _| v.shared_input_signature = None, set_excess: None, extra: &[],
+		clear: |v, _| v.shared_input_signature = None, set_excess: None, extra: &[], inner: Some(|v, _| {
+			let mut o = vec![];
+			let b = v.encode();
+			let mut off = 66;
+			for (i, w) in v.witnesses.iter().enumerate().take(3) {
+				strict_region(&format!("witness[{}] len", i), &b, off, &mut o);
+				off += 2 + w.size();
+			}
+			o
+		}),
 	}));
 	k.push(kind(Def::<TxInitRbf> {
 		name: "TxInitRbf", tlv: true, wire: true, bad: &[Len],
@@ -747,22 +923,22 @@ fn all_kinds() -> Vec<Box<dyn Kind>> {
 			channel_id: g.cid(), locktime: g.rng.gen(), feerate_sat_per_1000_weight: g.rng.gen(),
 			funding_output_contribution: Some(g.rng.gen()),
 		}),
-		clear: |v, _| v.funding_output_contribution = None, set_excess: None, extra: &[],
+		clear: |v, _| v.funding_output_contribution = None, set_excess: None, extra: &[], inner: None,
 	}));
 	k.push(kind(Def::<TxAckRbf> {
 		name: "TxAckRbf", tlv: true, wire: true, bad: &[Len],
 		build: |g, _| Ok(TxAckRbf { channel_id: g.cid(), funding_output_contribution: Some(g.rng.gen()) }),
-		clear: |v, _| v.funding_output_contribution = None, set_excess: None, extra: &[],
+		clear: |v, _| v.funding_output_contribution = None, set_excess: None, extra: &[], inner: None,
 	}));
 	k.push(kind(Def::<TxAbort> {
 		name: "TxAbort", tlv: true, wire: true, bad: B0,
 		build: |g, var| Ok(TxAbort { channel_id: g.cid(), data: g.vbytes(var, 64, 252, 30000) }),
-		clear: |_, _| {}, set_excess: None, extra: &[],
+		clear: |_, _| {}, set_excess: None, extra: &[], inner: Some(|v, _| { let mut o = vec![]; let b = v.encode(); opaque_last("data", &b, 32, &mut o); o }),
 	}));
 	k.push(kind(Def::<Shutdown> {
 		name: "Shutdown", tlv: true, wire: true, bad: B0,
 		build: |g, var| Ok(Shutdown { channel_id: g.cid(), scriptpubkey: g.script(var) }),
-		clear: |_, _| {}, set_excess: None, extra: &[],
+		clear: |_, _| {}, set_excess: None, extra: &[], inner: Some(|v, _| { let mut o = vec![]; let b = v.encode(); opaque_last("scriptpubkey len", &b, 32, &mut o); o }),
 	}));
 	k.push(kind(Def::<ClosingSigned> {
 		name: "ClosingSigned", tlv: true, wire: true, bad: &[Len],
@@ -770,7 +946,7 @@ fn all_kinds() -> Vec<Box<dyn Kind>> {
 			channel_id: g.cid(), fee_satoshis: g.rng.gen(), signature: g.sig(),
 			fee_range: Some(ClosingSignedFeeRange { min_fee_satoshis: g.rng.gen(), max_fee_satoshis: g.rng.gen() }),
 		}),
-		clear: |v, _| v.fee_range = None, set_excess: None, extra: &[],
+		clear: |v, _| v.fee_range = None, set_excess: None, extra: &[], inner: None,
 	}));
 	k.push(kind(Def::<ClosingComplete> {
 		name: "ClosingComplete", tlv: true, wire: false, bad: &[Sig, Sig, Sig],
@@ -780,7 +956,7 @@ fn all_kinds() -> Vec<Box<dyn Kind>> {
 			closer_output_only: Some(g.sig()), closee_output_only: Some(g.sig()), closer_and_closee_outputs: Some(g.sig()),
 		}),
 		clear: |v, i| match i { 0 => v.closer_output_only = None, 1 => v.closee_output_only = None, _ => v.closer_and_closee_outputs = None },
-		set_excess: None, extra: &[],
+		set_excess: None, extra: &[], inner: None,
 	}));
 	k.push(kind(Def::<ClosingSig> {
 		name: "ClosingSig", tlv: true, wire: false, bad: &[Sig, Sig, Sig],
@@ -790,7 +966,7 @@ fn all_kinds() -> Vec<Box<dyn Kind>> {
 			closer_output_only: Some(g.sig()), closee_output_only: Some(g.sig()), closer_and_closee_outputs: Some(g.sig()),
 		}),
 		clear: |v, i| match i { 0 => v.closer_output_only = None, 1 => v.closee_output_only = None, _ => v.closer_and_closee_outputs = None },
-		set_excess: None, extra: &[],
+		set_excess: None, extra: &[], inner: None,
 	}));
 	k.push(kind(Def::<OnionMessage> {
 		name: "OnionMessage", tlv: false, wire: true, bad: B0,
@@ -800,12 +976,12 @@ fn all_kinds() -> Vec<Box<dyn Kind>> {
 				version: g.rng.gen(), public_key: g.pk(), hop_data: g.vbytes(var, 100, 1300, 32768), hmac: g.a32(),
 			},
 		}),
-		clear: |_, _| {}, set_excess: None, extra: &[],
+		clear: |_, _| {}, set_excess: None, extra: &[], inner: Some(|v, _| { let mut o = vec![]; let b = v.encode(); opaque_last("onion packet len", &b, 33, &mut o); o }),
 	}));
 	k.push(kind(Def::<StartBatch> {
 		name: "StartBatch", tlv: true, wire: true, bad: &[Len],
 		build: |g, _| Ok(StartBatch { channel_id: g.cid(), batch_size: g.rng.gen(), message_type: Some(g.rng.gen()) }),
-		clear: |v, _| v.message_type = None, set_excess: None, extra: &[],
+		clear: |v, _| v.message_type = None, set_excess: None, extra: &[], inner: None,
 	}));
 	k.push(kind(Def::<UpdateAddHTLC> {
 		name: "UpdateAddHTLC", tlv: true, wire: true, bad: &[Pk, Len, Len, Len],
@@ -824,7 +1000,7 @@ fn all_kinds() -> Vec<Box<dyn Kind>> {
 			})
 		},
 		clear: |v, i| match i { 0 => v.blinding_point = None, 1 => v.skimmed_fee_msat = None, 2 => v.hold_htlc = None, _ => v.accountable = None },
-		set_excess: None, extra: &[],
+		set_excess: None, extra: &[], inner: None,
 	}));
 	k.push(kind(Def::<UpdateFulfillHTLC> {
 		name: "UpdateFulfillHTLC", tlv: true, wire: true, bad: &[Len],
@@ -835,7 +1011,7 @@ fn all_kinds() -> Vec<Box<dyn Kind>> {
 				attribution_data: Some(Readable::read(&mut &ab[..]).map_err(|e| format!("attribution data: {:?}", e))?),
 			})
 		},
-		clear: |v, _| v.attribution_data = None, set_excess: None, extra: &[],
+		clear: |v, _| v.attribution_data = None, set_excess: None, extra: &[], inner: None,
 	}));
 	k.push(kind(Def::<UpdateFailHTLC> {
 		// `reason` is crate-private: the value is obtained by decoding hand-made valid bytes
@@ -849,12 +1025,12 @@ fn all_kinds() -> Vec<Box<dyn Kind>> {
 			b.extend_from_slice(&attribution_bytes(g));
 			from_bytes(&b)
 		},
-		clear: |v, _| v.attribution_data = None, set_excess: None, extra: &[],
+		clear: |v, _| v.attribution_data = None, set_excess: None, extra: &[], inner: Some(|v, _| { let mut o = vec![]; let mut w = v.clone(); w.attribution_data = None; let b = w.encode(); opaque_last("reason len", &b, 40, &mut o); o }),
 	}));
 	k.push(kind(Def::<UpdateFailMalformedHTLC> {
 		name: "UpdateFailMalformedHTLC", tlv: true, wire: true, bad: B0,
 		build: |g, _| { let b = g.bytes(32 + 8 + 32 + 2); from_bytes(&b) },
-		clear: |_, _| {}, set_excess: None, extra: &[],
+		clear: |_, _| {}, set_excess: None, extra: &[], inner: None,
 	}));
 	k.push(kind(Def::<CommitmentSigned> {
 		name: "CommitmentSigned", tlv: true, wire: true, bad: &[Len],
@@ -865,7 +1041,7 @@ fn all_kinds() -> Vec<Box<dyn Kind>> {
 				funding_txid: Some(g.txid()),
 			})
 		},
-		clear: |v, _| v.funding_txid = None, set_excess: None, extra: &[],
+		clear: |v, _| v.funding_txid = None, set_excess: None, extra: &[], inner: None,
 	}));
 	k.push(kind(Def::<RevokeAndACK> {
 		name: "RevokeAndACK", tlv: true, wire: true, bad: &[Len],
@@ -885,12 +1061,12 @@ fn all_kinds() -> Vec<Box<dyn Kind>> {
 				release_htlc_message_paths: paths,
 			})
 		},
-		clear: |v, _| v.release_htlc_message_paths.clear(), set_excess: None, extra: &[],
+		clear: |v, _| v.release_htlc_message_paths.clear(), set_excess: None, extra: &[], inner: None,
 	}));
 	k.push(kind(Def::<UpdateFee> {
 		name: "UpdateFee", tlv: true, wire: true, bad: B0,
 		build: |g, _| Ok(UpdateFee { channel_id: g.cid(), feerate_per_kw: g.rng.gen() }),
-		clear: |_, _| {}, set_excess: None, extra: &[],
+		clear: |_, _| {}, set_excess: None, extra: &[], inner: None,
 	}));
 	k.push(kind(Def::<ChannelReestablish> {
 		name: "ChannelReestablish", tlv: true, wire: true, bad: &[Len, Len],
@@ -901,14 +1077,14 @@ fn all_kinds() -> Vec<Box<dyn Kind>> {
 			my_current_funding_locked: Some(FundingLocked { txid: g.txid(), retransmit_flags: g.rng.gen() }),
 		}),
 		clear: |v, i| match i { 0 => v.next_funding = None, _ => v.my_current_funding_locked = None },
-		set_excess: None, extra: &[],
+		set_excess: None, extra: &[], inner: None,
 	}));
 	k.push(kind(Def::<AnnouncementSignatures> {
 		name: "AnnouncementSignatures", tlv: true, wire: true, bad: B0,
 		build: |g, _| Ok(AnnouncementSignatures {
 			channel_id: g.cid(), short_channel_id: g.rng.gen(), node_signature: g.sig(), bitcoin_signature: g.sig(),
 		}),
-		clear: |_, _| {}, set_excess: None, extra: &[],
+		clear: |_, _| {}, set_excess: None, extra: &[], inner: None,
 	}));
 	k.push(kind(Def::<ChannelAnnouncement> {
 		name: "ChannelAnnouncement", tlv: false, wire: true, bad: B0,
@@ -920,7 +1096,7 @@ fn all_kinds() -> Vec<Box<dyn Kind>> {
 				excess_data: g.vbytes(var, 40, 252, 3000),
 			},
 		}),
-		clear: |_, _| {}, set_excess: Some(|v, x| v.contents.excess_data = x), extra: &[],
+		clear: |_, _| {}, set_excess: Some(|v, x| v.contents.excess_data = x), extra: &[], inner: None,
 	}));
 	k.push(kind(Def::<NodeAnnouncement> {
 		name: "NodeAnnouncement", tlv: false, wire: true, bad: B0,
@@ -951,7 +1127,7 @@ fn all_kinds() -> Vec<Box<dyn Kind>> {
 				},
 			})
 		},
-		clear: |_, _| {}, set_excess: Some(|v, x| v.contents.excess_data = x), extra: &[],
+		clear: |_, _| {}, set_excess: Some(|v, x| v.contents.excess_data = x), extra: &[], inner: Some(node_announcement_inner),
 	}));
 	k.push(kind(Def::<ChannelUpdate> {
 		name: "ChannelUpdate", tlv: false, wire: true, bad: B0,
@@ -965,7 +1141,7 @@ fn all_kinds() -> Vec<Box<dyn Kind>> {
 				fee_proportional_millionths: g.rng.gen(), excess_data: g.vbytes(var, 40, 252, 3000),
 			},
 		}),
-		clear: |_, _| {}, set_excess: Some(|v, x| v.contents.excess_data = x), extra: &[("must_be_one_clear", 108, 0)],
+		clear: |_, _| {}, set_excess: Some(|v, x| v.contents.excess_data = x), extra: &[("must_be_one_clear", 108, 0)], inner: None,
 	}));
 	k.push(kind(Def::<QueryShortChannelIds> {
 		name: "QueryShortChannelIds", tlv: false, wire: true, bad: B0,
@@ -973,17 +1149,17 @@ fn all_kinds() -> Vec<Box<dyn Kind>> {
 			let n = g.vlen(var, 5, 32, 8000);
 			Ok(QueryShortChannelIds { chain_hash: g.chain(), short_channel_ids: (0..n).map(|_| g.rng.gen()).collect() })
 		},
-		clear: |_, _| {}, set_excess: None, extra: &[("zlib_encoding", 34, 1)],
+		clear: |_, _| {}, set_excess: None, extra: &[("zlib_encoding", 34, 1)], inner: Some(|v, _| { let mut o = vec![]; let b = v.encode(); scid_region(&b, 32, &mut o); o }),
 	}));
 	k.push(kind(Def::<ReplyShortChannelIdsEnd> {
 		name: "ReplyShortChannelIdsEnd", tlv: true, wire: true, bad: B0,
 		build: |g, _| Ok(ReplyShortChannelIdsEnd { chain_hash: g.chain(), full_information: g.rng.gen() }),
-		clear: |_, _| {}, set_excess: None, extra: &[("bool_2", 32, 2)],
+		clear: |_, _| {}, set_excess: None, extra: &[("bool_2", 32, 2)], inner: None,
 	}));
 	k.push(kind(Def::<QueryChannelRange> {
 		name: "QueryChannelRange", tlv: true, wire: true, bad: B0,
 		build: |g, _| Ok(QueryChannelRange { chain_hash: g.chain(), first_blocknum: g.rng.gen(), number_of_blocks: g.rng.gen() }),
-		clear: |_, _| {}, set_excess: None, extra: &[],
+		clear: |_, _| {}, set_excess: None, extra: &[], inner: None,
 	}));
 	k.push(kind(Def::<ReplyChannelRange> {
 		name: "ReplyChannelRange", tlv: false, wire: true, bad: B0,
@@ -994,12 +1170,12 @@ fn all_kinds() -> Vec<Box<dyn Kind>> {
 				short_channel_ids: (0..n).map(|_| g.rng.gen()).collect(),
 			})
 		},
-		clear: |_, _| {}, set_excess: None, extra: &[("bool_2", 40, 2), ("zlib_encoding", 43, 1)],
+		clear: |_, _| {}, set_excess: None, extra: &[("bool_2", 40, 2), ("zlib_encoding", 43, 1)], inner: Some(|v, _| { let mut o = vec![]; let b = v.encode(); scid_region(&b, 41, &mut o); o }),
 	}));
 	k.push(kind(Def::<GossipTimestampFilter> {
 		name: "GossipTimestampFilter", tlv: true, wire: true, bad: B0,
 		build: |g, _| Ok(GossipTimestampFilter { chain_hash: g.chain(), first_timestamp: g.rng.gen(), timestamp_range: g.rng.gen() }),
-		clear: |_, _| {}, set_excess: None, extra: &[],
+		clear: |_, _| {}, set_excess: None, extra: &[], inner: None,
 	}));
 	k
 }
@@ -1021,6 +1197,7 @@ struct AMsg {
 	nk: usize,
 	tid: String,
 	fixed: String,
+	inner: String,
 	recs: Vec<ARec>,
 	tail: String,
 }
@@ -1031,7 +1208,7 @@ impl ARec {
 }
 impl AMsg {
 	fn base(tlvkind: bool, nk: usize) -> AMsg {
-		AMsg { opaque: false, tlvkind, nk, tid: "known".into(), fixed: "complete".into(), recs: vec![], tail: "none".into() }
+		AMsg { opaque: false, tlvkind, nk, tid: "known".into(), fixed: "complete".into(), inner: "none".into(), recs: vec![], tail: "none".into() }
 	}
 	fn opaque() -> AMsg {
 		let mut m = AMsg::base(false, 0);
@@ -1039,7 +1216,7 @@ impl AMsg {
 		m
 	}
 	fn json(&self) -> Value {
-		json!({"opaque": self.opaque, "tlvkind": self.tlvkind, "nk": self.nk, "tid": self.tid, "fixed": self.fixed,
+		json!({"opaque": self.opaque, "tlvkind": self.tlvkind, "nk": self.nk, "tid": self.tid, "fixed": self.fixed, "inner": self.inner,
 			"recs": self.recs.iter().map(|r| json!({"t": r.t, "enc": r.enc, "fit": r.fit, "val": r.val})).collect::<Vec<_>>(),
 			"tail": self.tail})
 	}
@@ -1050,6 +1227,7 @@ impl AMsg {
 			nk: v["nk"].as_u64().unwrap() as usize,
 			tid: v["tid"].as_str().unwrap().into(),
 			fixed: v["fixed"].as_str().unwrap().into(),
+			inner: v["inner"].as_str().unwrap_or("none").into(),
 			recs: v["recs"].as_array().unwrap().iter().map(|r| ARec {
 				t: r["t"].as_i64().unwrap(),
 				enc: r["enc"].as_str().unwrap().into(),
@@ -1282,6 +1460,10 @@ struct Out {
 }
 impl Out {
 	fn emit(&mut self, kind: &str, level: &str, src: &str, m: &AMsg, obs: &Obs, exp: bool, bytes: &[u8], info: Value) {
+		self.emit_c(kind, level, src, m, obs, exp, false, bytes, info)
+	}
+	#[allow(clippy::too_many_arguments)]
+	fn emit_c(&mut self, kind: &str, level: &str, src: &str, m: &AMsg, obs: &Obs, exp: bool, cexp: bool, bytes: &[u8], info: Value) {
 		self.run += 1;
 		*self.by_src.entry(src.to_string()).or_insert(0) += 1;
 		*self.by_obs.entry(obs.class.to_string()).or_insert(0) += 1;
@@ -1295,7 +1477,7 @@ impl Out {
 		}
 		let ev = if obs.class == "panic" { "panic" } else { "case" };
 		self.tw.emit(json!({"run": self.run, "ev": ev, "kind": kind, "level": level, "src": src, "m": m.json(),
-			"obs": obs.class, "exp": exp, "eq": obs.eq, "rt": obs.rt, "over": obs.over}));
+			"obs": obs.class, "exp": exp, "eq": obs.eq, "rt": obs.rt, "over": obs.over, "cexp": cexp, "canon": obs.canon}));
 		let full = self.only.is_some() || bytes.len() <= 160;
 		self.dw.emit(json!({"run": self.run, "kind": kind, "level": level, "src": src, "err": obs.err, "len": bytes.len(),
 			"consumed": obs.consumed, "hex": if full { hex(bytes) } else { format!("{}...", hex(&bytes[..160])) }, "info": info}));
@@ -1485,6 +1667,19 @@ fn fam_trunc(k: &dyn Kind, c: &Ctx, g: &mut Gen, budget: usize, out: &mut Out, i
 	}
 }
 
+/// inner declared lengths vs the element boundaries of the builder's own value
+fn fam_inner(k: &dyn Kind, c: &Ctx, g: &mut Gen, out: &mut Out, info: &Value) {
+	for ic in c.inst.inner_cases(g) {
+		let mut m = AMsg::base(k.tlv(), 0);
+		m.inner = ic.class.into();
+		// is the unmanipulated encoding itself canonical (re-encodes byte for byte)?
+		let o0 = c.inst.observe(&ic.base, &Expect::None);
+		let cexp = o0.class == "accept" && o0.canon;
+		let o = c.inst.observe(&ic.bytes, &Expect::None);
+		out.emit_c(k.name(), "codec", "inner_length", &m, &o, false, cexp, &ic.bytes, json!({"ctx": info, "what": ic.name}));
+	}
+}
+
 fn fam_fixedbad(k: &dyn Kind, c: &Ctx, g: &mut Gen, out: &mut Out, info: &Value) {
 	let all = (1u32 << c.nk) - 1;
 	for (name, off, b) in &c.patches {
@@ -1536,7 +1731,7 @@ fn fam_tlc(k: &dyn Kind, ki: usize, ctxs: &[Ctx], cases: &[(usize, AMsg)], accep
 	let mut three: Vec<&(usize, AMsg)> = Vec::new();
 	for c in cases {
 		let m = &c.1;
-		if m.tid != "known" || m.tlvkind != k.tlv() || m.nk != nk {
+		if m.tid != "known" || m.tlvkind != k.tlv() || m.nk != nk || m.inner != "none" {
 			continue;
 		}
 		if m.recs.len() >= 3 {
@@ -1637,7 +1832,7 @@ fn fam_tlc(k: &dyn Kind, ki: usize, ctxs: &[Ctx], cases: &[(usize, AMsg)], accep
 
 fn wire_obs(full: &[u8]) -> Obs {
 	let r = catch_unwind(AssertUnwindSafe(|| lightning::verif::codec::wire_read(full)));
-	let mut o = Obs { class: "reject", err: String::new(), eq: false, rt: false, consumed: 0, over: false };
+	let mut o = Obs { class: "reject", err: String::new(), eq: false, rt: false, consumed: 0, over: false, canon: false };
 	match r {
 		Err(_) => {
 			o.class = "panic";
@@ -1669,7 +1864,7 @@ fn wire_obs(full: &[u8]) -> Obs {
 /// message-type classes at the wire::read level
 fn fam_typeid(kinds: &[Box<dyn Kind>], known_ids: &[u16], cases: &[(usize, AMsg)], n: usize, seed: u64, pools: &Rc<Pools>, out: &mut Out) {
 	for (ci, m) in cases {
-		if m.tid == "known" {
+		if m.tid == "known" || m.inner != "none" {
 			continue;
 		}
 		for i in 0..n {
@@ -1797,7 +1992,7 @@ fn main() {
 					Err(e) => {
 						// hand-made valid bytes (or a value builder) failed: a complete, clean message was refused
 						let m = AMsg::base(k.tlv(), k.nk());
-						let o = Obs { class: if e.starts_with("panic") { "panic" } else { "reject" }, err: e, eq: false, rt: false, consumed: 0, over: false };
+						let o = Obs { class: if e.starts_with("panic") { "panic" } else { "reject" }, err: e, eq: false, rt: false, consumed: 0, over: false, canon: false };
 						out.emit(k.name(), "codec", "construct", &m, &o, false, &[], json!({"ctx": info}));
 					},
 					Ok(c) => {
@@ -1813,6 +2008,7 @@ fn main() {
 						fam_roundtrip(k.as_ref(), &c, &mut out, &info);
 						fam_trunc(k.as_ref(), &c, &mut g, trunc, &mut out, &info);
 						fam_fixedbad(k.as_ref(), &c, &mut g, &mut out, &info);
+						fam_inner(k.as_ref(), &c, &mut g, &mut out, &info);
 						fam_mutate(k.as_ref(), &c, &mut g, mutate, &mut out, &info);
 						ctxs.push(c);
 					},
@@ -2031,7 +2227,7 @@ fn fam_peer(kinds: &[Box<dyn Kind>], known_ids: &[u16], n: usize, seed: u64, poo
 			}
 			let mut m = AMsg::base(false, 0);
 			m.tid = class.to_string();
-			let o = Obs { class: class_obs, err: diag, eq: false, rt: false, consumed: 0, over: false };
+			let o = Obs { class: class_obs, err: diag, eq: false, rt: false, consumed: 0, over: false, canon: false };
 			let mut full = tid.to_be_bytes().to_vec();
 			full.extend_from_slice(&payload);
 			out.emit("-", "peer", "peer_typeid", &m, &o, false, &full, json!({"type": tid}));
